@@ -11,6 +11,7 @@ Definition R_lib (T : tab) (k : key) (v : val) : Prop :=
   | T_LOADFUNC => exists l snap, v = VL (l :: snap)   (* a generated cls_fromdict *)
   | T_DUMPFUNC => exists o skip, v = VL (o :: skip)   (* a generated cls_asdict *)
   | T_DUMPER => exists o, v = VN o                    (* a dumper class (created by thread o) *)
+  | T_DEFREG => exists o, v = VN o                    (* a defaults dict (created by thread o) *)
   | T_ALIAS => v <> VL []                             (* no field is dumped under a JSON path *)
   | T_PATH => False                                   (* no JSON-path entry *)
   | T_OBJ => v = VN 1                                 (* every set/dict object mirrors os.environ *)
@@ -72,12 +73,12 @@ Proof.
 Qed.
 
 (* FIELD_TO_DEFAULT: the WRITER side is harmless in itself (every write is admissible) *)
-Lemma M_fill_defaults : forall cd K k r, (forall K', incl K K' -> M K' k r) ->
+Lemma M_fill_defaults : forall tid cd K k r, (forall K', incl K K' -> M K' k r) ->
   M K (Yield Y_defaults_registered
          (p_fields (for_fields (cd_fields cd) 0
-            (fun i f k => Yield Y_defaults_fill (if fd_dflt f then Wr T_DEFAULTS i VU k else k)) k))) r.
+            (fun i f k => Yield Y_defaults_fill (if fd_dflt f then Wr (T_DEFAULTS tid) i VU k else k)) k))) r.
 Proof.
-  intros cd K k r Hk. apply MP_yield. apply M_p_fields. intros K1 H1.
+  intros tid cd K k r Hk. apply MP_yield. apply M_p_fields. intros K1 H1.
   apply M_for_fields with (P := fun _ => True).
   - clear. induction (cd_fields cd); constructor; auto.
   - intros i f k0 K' _ Hi Hk0. apply MP_yield. destruct (fd_dflt f).
@@ -86,15 +87,16 @@ Proof.
   - intros K' Hi. apply Hk. inc.
 Qed.
 
-Lemma M_p_defaults : forall fx cd K c r, (forall K', incl K K' -> M K' c r) -> M K (p_defaults fx cd c) r.
+Lemma M_p_defaults : forall fx tid cd K c r,
+  (forall o K', incl K K' -> M K' (c o) r) -> M K (p_defaults fx tid cd c) r.
 Proof.
-  intros fx cd K c r Hc. unfold p_defaults. apply MP_rd.
+  intros fx tid cd K c r Hc. unfold p_defaults. apply MP_rd.
   - intros _ _. apply MP_yield. destruct (fx32 fx).
-    + apply M_fill_defaults. intros K1 H1. apply MP_wr; [exact I | inc |].
-      apply M_rd_known; [now left|]. intros v _. cbn [need]. apply Hc. inc.
-    + apply MP_wr; [exact I | inc |]. apply M_fill_defaults. intros K1 H1.
-      apply M_rd_known; [apply H1; now left|]. intros v _. cbn [need]. apply Hc. inc.
-  - intros v _. apply M_rd_known; [now left|]. intros v2 _. cbn [need]. apply Hc. inc.
+    + apply M_fill_defaults. intros K1 H1. apply MP_wr; [now exists tid | inc |].
+      apply M_rd_known; [now left|]. intros v [o ->]. apply Hc. inc.
+    + apply MP_wr; [now exists tid | inc |]. apply M_fill_defaults. intros K1 H1.
+      apply M_rd_known; [apply H1; now left|]. intros v [o ->]. apply Hc. inc.
+  - intros v _. apply M_rd_known; [now left|]. intros v2 [o ->]. apply Hc. inc.
 Qed.
 
 Lemma M_p_loader : forall tid K c r, (forall K', incl K K' -> M K' c r) -> M K (p_loader tid c) r.
@@ -256,10 +258,10 @@ Proof.
   destruct Hs as [-> | ->]; [reflexivity|]. cbn [subset forallb negb]. now rewrite andb_false_r.
 Qed.
 
-Lemma M_gen_dump_fields : forall fs i skip K c r,
-  (forall skip' K', incl K K' -> M K' (c skip') r) -> M K (gen_dump_fields fs i skip c) r.
+Lemma M_gen_dump_fields : forall dd fs i skip K c r,
+  (forall skip' K', incl K K' -> M K' (c skip') r) -> M K (gen_dump_fields dd fs i skip c) r.
 Proof.
-  induction fs as [|f fs IH]; intros i skip K c r Hc; cbn [gen_dump_fields].
+  intros dd. induction fs as [|f fs IH]; intros i skip K c r Hc; cbn [gen_dump_fields].
   - apply Hc. inc.
   - apply M_rd_any; [|reflexivity]. intros K1 dv H1.
     apply MP_rd.
@@ -267,7 +269,7 @@ Proof.
       apply IH. intros skip' K' Hi. apply Hc. inc.
     + intros av Hav. cbn [R_lib] in Hav.
       assert (Hrec : forall K2, incl K1 K2 ->
-                M K2 (gen_dump_fields fs (Datatypes.S i)
+                M K2 (gen_dump_fields dd fs (Datatypes.S i)
                         match dv with Some _ => i :: skip | None => skip end c) r).
       { intros K2 H2. apply IH. intros skip' K' Hi. apply Hc. inc. }
       destruct av as [|n|[|x l]]; try (apply Hrec; inc).
@@ -281,7 +283,7 @@ Proof.
   - intros _ _. apply MP_yield. unfold gen_dump. apply MP_yield.
     apply M_p_dumper. intros o K1 H1.
     apply M_p_dump_cfg; [assumption|]. intros K2 H2. apply MP_yield.
-    apply M_p_defaults. intros K3 H3. apply M_p_fields. intros K4 H4.
+    apply M_p_defaults. intros dd K3 H3. apply M_p_fields. intros K4 H4.
     apply M_rd_any; [|reflexivity]. intros K5 ca H5.
     apply MP_size. intros _.
     apply M_gen_dump_fields. intros skip K6 H6.
